@@ -352,7 +352,13 @@ type World struct {
 }
 
 func (c *Ctx) NewWorld(hist int, mons []Monitor) (*World, error) {
-	sb, err := sandbox.New(filepath.Join(c.Scratch, "sb"), fmt.Sprintf("h%d", hist))
+	// where the repository lives is part of the input: one sandbox in seven sits in a directory whose name has
+	// blanks, glob and regexp metacharacters, '%' and a non-ASCII letter
+	name := fmt.Sprintf("h%d", hist)
+	if hist%7 == 5 {
+		name = fmt.Sprintf("h%d proj[1] (copy) *?+%%s \u00e9", hist)
+	}
+	sb, err := sandbox.New(filepath.Join(c.Scratch, "sb"), name)
 	if err != nil {
 		return nil, err
 	}
